@@ -24,10 +24,11 @@ SCALES = [-2.0, 0.5, 1e3]
 TWO_PI = 2 * math.pi
 
 
-def grid_of(shape, dx):
+def grid_of(shape, dx, aspect=None):
     from pde import CartesianGrid
 
-    return CartesianGrid([(0, n * dx) for n in shape], shape, periodic=True)
+    aspect = aspect or [1.0] * len(shape)
+    return CartesianGrid([(0, n * dx * a) for n, a in zip(shape, aspect)], shape, periodic=True)
 
 
 def blocks(tier, seed):
@@ -36,11 +37,27 @@ def blocks(tier, seed):
     for shape in shapes1 + [(16, 12)] + ([(8, 8, 8)] if tier == "thorough" else [(8, 6, 4)]):
         for m0 in range(0, shape[0] // 4 + 1):
             out.append({"kind": "waves", "shape": list(shape), "seedv": seed % 3, "m0": m0})
+    # equal cell counts but different spacings per axis
+    for shape, aspect in (([12, 12], [1.0, 2.0]), ([12, 12], [2.0, 1.0]), ([8, 8, 8] if tier == "thorough" else [8, 8, 4], [1.0, 2.0, 1.0])):
+        for m0 in range(0, shape[0] // 4 + 1):
+            out.append({"kind": "waves", "shape": list(shape), "aspect": aspect, "seedv": seed % 3, "m0": m0})
+    # droplet counting under every translation of every small binary image
+    for shape in [[3, 4], [4, 3]] + ([[4, 4], [2, 2, 3]] if tier == "thorough" else []):
+        for b0 in (0, 1):
+            for b1 in (0, 1):
+                out.append({"kind": "shift-detect", "shape": shape, "prefix": [b0, b1]})
+    # elongated domains whose equal-volume spheres overlap: the overlap removal has to discard several of them
+    for l0 in BAR_LENGTHS:
+        out.append({"kind": "bars", "first": l0, "tier": tier})
     out.append({"kind": "droplets", "seedv": seed % 3})
     out.append({"kind": "nonconvex"})
     out.append({"kind": "small", "shape": [6]})
     out.append({"kind": "small", "shape": [2, 3]})
     return out
+
+
+BAR_ROWS = [2, 4, 9, 11, 14]
+BAR_LENGTHS = [0, 4, 7, 11, 14, 17]  # 0 = no bar in this row; all other lengths pairwise different (no ties between radii)
 
 
 def wave_vectors(shape):
@@ -68,12 +85,30 @@ def cases(block):
             for a, o, p in itertools.product(amps, offs, phases):
                 if len(shape) == 3 and (a, o) not in ((0.2, 0.3), (3.0, 0.0)):
                     continue
-                yield {"kind": "wave", "shape": shape, "m": m, "amp": a, "offset": o, "phase": p}
+                c = {"kind": "wave", "shape": shape, "m": m, "amp": a, "offset": o, "phase": p}
+                if block.get("aspect"):
+                    if (a, o) not in ((0.2, 0.3), (3.0, 0.0)):
+                        continue
+                    c["aspect"] = block["aspect"]
+                yield c
     elif block["kind"] == "droplets":
         for shape, centres, R in (((32,), [[7.3], [22.1]], 3.2), ((24, 24), [[6.2, 6.9], [17.5, 16.1]], 3.4), ((24, 24), [[5.2, 5.9], [17.5, 6.1], [5.5, 17.7], [18.1, 18.4]], 3.1),
                                   ((32,), [[4.3], [12.1], [20.4], [27.9]], 1.6), ((10, 10, 10), [[2.6, 2.7, 2.4], [7.3, 7.1, 7.6]], 2.1)):
             for extra in (0.0, 0.13 * (1 + block["seedv"])):
                 yield {"kind": "droplets", "shape": list(shape), "centres": [[c + extra for c in cc] for cc in centres], "R": R}
+    elif block["kind"] == "bars":
+        for rest in itertools.product(BAR_LENGTHS, repeat=len(BAR_ROWS) - 1):
+            lens = [block["first"]] + list(rest)
+            used = [l for l in lens if l]
+            if len(used) >= 2 and len(set(used)) == len(used):
+                yield {"kind": "bars", "shape": [20, 20], "lengths": lens, "all_shifts": block["tier"] == "thorough"}
+    elif block["kind"] == "shift-detect":
+        shape = block["shape"]
+        n = int(np.prod(shape))
+        for rest in itertools.product((0, 1), repeat=n - 2):
+            bits = list(block["prefix"]) + list(rest)
+            if 0 < sum(bits) < n:
+                yield {"kind": "shift-detect", "shape": shape, "bits": bits}
     elif block["kind"] == "nonconvex":
         for name in ("horseshoe", "ring+dot", "comb"):
             yield {"kind": "nonconvex", "shape": [14, 12], "name": name}
@@ -97,6 +132,13 @@ def build(case):
         for c in case["centres"]:
             d2 = sum((((x - ci + n / 2) % n) - n / 2) ** 2 for x, ci, n in zip(idx, c, shape))
             f = np.maximum(f, 0.5 + 0.5 * np.tanh((case["R"] - np.sqrt(d2)) / 1.0))
+        return f
+    if case["kind"] == "bars":
+        f = np.zeros(shape)
+        for row, num in zip(BAR_ROWS, case["lengths"]):
+            if num:
+                start = shape[1] // 2 - num // 2
+                f[row, start:start + num] = 1
         return f
     if case["kind"] == "nonconvex":
         f = np.zeros(shape)
@@ -124,14 +166,62 @@ def run_case(case, ctx):
     shape = f.shape
     dim = len(shape)
     tags = {"kind": case["kind"], "dim": dim}
-    Lmax1 = max(shape) * 1.0  # box length at spacing 1
+    aspect = case.get("aspect") or [1.0] * dim
+    if case.get("aspect"):
+        ctx.count("equal-cell-counts-different-spacings")
+        tags["anisotropic"] = True
+    Lmax1 = max(n * a for n, a in zip(shape, aspect))  # largest box length at spacing 1
 
     def ls(data, dx, method, **kw):
         ctx.op()
         try:
-            return float(get_length_scale(ScalarField(grid_of(shape, dx), data), method=method, **kw))
+            return float(get_length_scale(ScalarField(grid_of(shape, dx, aspect), data), method=method, **kw))
         except Exception as e:  # noqa
             return repr(e)
+
+    if case["kind"] == "bars":
+        from mcx import geom
+
+        # screen ties: the greedy removal (closest pair first, smaller one goes) is order independent only without ties
+        comps = geom.components(f > 0.5, [True, True])
+        rad = [math.sqrt(len(c["cells"]) / math.pi) for c in comps]
+        cen = [np.mean(np.array(c["unwrapped"], float) + 0.5, axis=0) for c in comps]
+        g = {"kind": "cart", "shape": list(shape), "dx": [1.0, 1.0], "origin": [0.0, 0.0], "periodic": [True, True]}
+        S = sorted(geom.point_dist(g, cen[i], cen[j]) - rad[i] - rad[j] for i in range(len(comps)) for j in range(i + 1, len(comps)))
+        if any(b - a < 1e-9 for a, b in zip(S, S[1:])) or any(abs(s_) < 1e-9 for s_ in S):
+            ctx.skip("knife-edge:tied-surface-distances")
+            return
+        if sum(1 for s_ in S if s_ < 0) >= 2:
+            ctx.count("fields-with->=2-overlapping-sphere-pairs")
+        base = ls(f, 1.0, "droplet_detection")
+        t = dict(tags, method="droplet_detection", has_winding_component=False)
+        cols = range(shape[1]) if case.get("all_shifts") else (0, 7)
+        for sh in itertools.product(range(shape[0]), cols):
+            if any(sh):
+                val = ls(np.roll(f, sh, axis=(0, 1)), 1.0, "droplet_detection")
+                same = (not isinstance(val, str)) and (not isinstance(base, str)) and (val == base or abs(val - base) <= 1e-9 * abs(base))
+                ctx.check("C17.shift", same, {"shift": sh, "length": val, "base": base}, t)
+        for dx in (0.39, 10.0):
+            val = ls(f, dx, "droplet_detection")
+            ctx.check("C17.stretch", (not isinstance(val, str)) and (not isinstance(base, str)) and abs(val - base * dx) <= 1e-9 * abs(base * dx), {"length": val, "expected": base, "dx": dx}, t)
+        return
+    if case["kind"] == "shift-detect":
+        from mcx import geom
+
+        base = ls(f, 1.0, "droplet_detection")
+        # a domain that winds around a periodic axis has no translation-covariant centre in the library (recorded finding)
+        wind = any(c["winding"] for c in geom.components(f > 0.5, [True] * dim))
+        t = dict(tags, method="droplet_detection", has_winding_component=bool(wind))
+        if wind:
+            ctx.count("images-with-winding-domain")
+        for sh in itertools.product(*[range(n) for n in shape]):
+            if any(sh):
+                val = ls(np.roll(f, sh, axis=tuple(range(dim))), 1.0, "droplet_detection")
+                same = (not isinstance(val, str)) and (not isinstance(base, str)) and (val == base or abs(val - base) <= 1e-9 * abs(base))
+                ctx.check("C17.shift", same, {"shift": sh, "length": val, "base": base}, t)
+        if not isinstance(base, str) and math.isfinite(base):
+            ctx.count("translated-images-with-droplets")
+        return
 
     methods = ["structure_factor_mean", "structure_factor_maximum"]
     if case["kind"] in ("droplets",):
@@ -148,7 +238,7 @@ def run_case(case, ctx):
     # knife-edge screen for the peak-based method: the largest power must belong to one wave number only
     from droplets import get_structure_factor
 
-    k_, S_ = get_structure_factor(ScalarField(grid_of(shape, 1.0), f), smoothing=None)
+    k_, S_ = get_structure_factor(ScalarField(grid_of(shape, 1.0, aspect), f), smoothing=None)
     top = {round(float(k), 9) for k, s_ in zip(k_, S_) if s_ >= S_.max() * (1 - 1e-6)}
     for method in methods:
         t = dict(tags, method=method)
@@ -161,7 +251,7 @@ def run_case(case, ctx):
             ctx.check("C17.no-raise", False, {"exc": ref, "dx": 1.0}, t)
             continue
         if case["kind"] == "wave" and peak:
-            ktrue = TWO_PI * math.sqrt(sum((m / n) ** 2 for m, n in zip(case["m"], shape)))
+            ktrue = TWO_PI * math.sqrt(sum((m / (n * a)) ** 2 for m, n, a in zip(case["m"], shape, aspect)))
         for dx in SPACINGS:
             val = ref if dx == 1.0 else ls(f, dx, method)
             t2 = dict(t, spacing=dx)
@@ -221,4 +311,5 @@ def run_case(case, ctx):
 
 
 def expected_positive(tier):
-    return ["C17.stretch", "C17.field-scale", "C17.shift", "C17.peak", "C17.detection", "non-constant-field"]
+    return ["C17.stretch", "C17.field-scale", "C17.shift", "C17.peak", "C17.detection", "non-constant-field", "equal-cell-counts-different-spacings",
+            "translated-images-with-droplets", "fields-with->=2-overlapping-sphere-pairs"]
